@@ -411,7 +411,13 @@ pub fn hostile_exec_menu(s: &Sim) -> Vec<(ExecuteMsg, Vec<(String, u128)>)> {
         vec![(sdn.clone(), big)],
         vec![("uosmo".to_string(), 5)],
     ];
-    let mint_tos: Vec<Option<String>> = vec![None, Some("garbage".into()), Some(n20(k, "n1")), Some(u(3)), Some(p32("c1")), Some(String::new())];
+    let mut mint_tos: Vec<Option<String>> = vec![None, Some("garbage".into()), Some(n20(k, "n1")), Some(u(3)), Some(p32("c1")), Some(String::new())];
+    // checksum-valid strings that are not byte strings, under both prefixes; 32-byte native account
+    let odd_native = mwsim::bech::odd_strings(&k.native_prefix);
+    let odd_proto = mwsim::bech::odd_strings(PROTO_PREFIX);
+    mint_tos.extend(odd_native.iter().cloned().map(Some));
+    mint_tos.extend(odd_proto.iter().take(3).cloned().map(Some));
+    mint_tos.push(Some(mwsim::bech::addr(&k.native_prefix, "native-m32", 32)));
     for f in &fundsets {
         for mt in &mint_tos {
             for ex in [None, Some(Uint128::MAX)] {
@@ -438,11 +444,15 @@ pub fn hostile_exec_menu(s: &Sim) -> Vec<(ExecuteMsg, Vec<(String, u128)>)> {
     for f in [vec![], vec![(sdn.clone(), 1)], vec![(sdn.clone(), 9)], vec![(sdn.clone(), max_reward)], vec![(lst.clone(), 3)]] {
         m.push((ExecuteMsg::ReceiveRewards {}, f));
     }
-    for v in ["garbage".to_string(), val(k, "1"), val(k, "9"), n20(k, "n1"), String::new()] {
+    let mut vals_menu = vec!["garbage".to_string(), val(k, "1"), val(k, "9"), n20(k, "n1"), String::new()];
+    vals_menu.extend(mwsim::bech::odd_strings(&format!("{}valoper", k.native_prefix)));
+    for v in vals_menu {
         m.push((ExecuteMsg::AddValidator { new_validator: v.clone() }, vec![]));
         m.push((ExecuteMsg::RemoveValidator { validator: v }, vec![]));
     }
-    for o in ["garbage".to_string(), u(3), n20(k, "n1"), String::new(), p32("c1")] {
+    let mut owners = vec!["garbage".to_string(), u(3), n20(k, "n1"), String::new(), p32("c1")];
+    owners.extend(odd_proto.iter().cloned());
+    for o in owners {
         m.push((ExecuteMsg::TransferOwnership { new_owner: o }, vec![]));
     }
     m.push((ExecuteMsg::AcceptOwnership {}, vec![]));
@@ -453,7 +463,7 @@ pub fn hostile_exec_menu(s: &Sim) -> Vec<(ExecuteMsg, Vec<(String, u128)>)> {
     bad_native.staker_address = "garbage".into();
     let mut bad_proto = im.protocol_chain_config.clone();
     bad_proto.ibc_channel_id = "channel-x".into();
-    let sections: Vec<(Option<UnsafeNativeChainConfig>, Option<UnsafeProtocolChainConfig>, Option<UnsafeProtocolFeeConfig>, Option<Vec<String>>, Option<u64>)> = vec![
+    let mut sections: Vec<(Option<UnsafeNativeChainConfig>, Option<UnsafeProtocolChainConfig>, Option<UnsafeProtocolFeeConfig>, Option<Vec<String>>, Option<u64>)> = vec![
         (None, None, None, None, None),
         (Some(im.native_chain_config.clone()), None, None, None, None),
         (Some(bad_native), None, None, None, None),
@@ -465,6 +475,26 @@ pub fn hostile_exec_menu(s: &Sim) -> Vec<(ExecuteMsg, Vec<(String, u128)>)> {
         (None, None, None, Some(vec![]), Some(0)),
         (None, None, None, None, Some(315_360_000)),
     ];
+    for (i, o) in odd_native.iter().enumerate() {
+        let mut nc = im.native_chain_config.clone();
+        if i % 2 == 0 {
+            nc.staker_address = o.clone();
+        } else {
+            nc.reward_collector_address = o.clone();
+        }
+        sections.push((Some(nc), None, None, None, None));
+    }
+    for (i, o) in odd_proto.iter().enumerate() {
+        match i % 3 {
+            0 => {
+                let mut pc = im.protocol_chain_config.clone();
+                pc.oracle_address = Some(o.clone());
+                sections.push((None, Some(pc), None, None, None));
+            }
+            1 => sections.push((None, None, Some(UnsafeProtocolFeeConfig { dao_treasury_fee: Uint128::new(1_000), treasury_address: Some(o.clone()) }), None, None)),
+            _ => sections.push((None, None, None, Some(vec![o.clone()]), None)),
+        }
+    }
     for (a, b, c, d, e) in sections {
         m.push((ExecuteMsg::UpdateConfig { native_chain_config: a, protocol_chain_config: b, protocol_fee_config: c, monitors: d, batch_period: e }, vec![]));
     }
@@ -483,7 +513,12 @@ pub fn hostile_exec_menu(s: &Sim) -> Vec<(ExecuteMsg, Vec<(String, u128)>)> {
         sels.push(Some(known.clone()));
     }
     for sel in sels {
-        for rc in [None, Some("garbage".to_string()), Some(n20(k, "n1")), Some(n20(k, "staker")), Some(u(3))] {
+        let mut rcs = vec![None, Some("garbage".to_string()), Some(n20(k, "n1")), Some(n20(k, "staker")), Some(u(3))];
+        if sel.is_none() {
+            rcs.extend(odd_native.iter().cloned().map(Some));
+            rcs.push(Some(mwsim::bech::addr(&k.native_prefix, "native-m32", 32)));
+        }
+        for rc in rcs {
             for pg in [None, Some(true)] {
                 m.push((ExecuteMsg::RecoverPendingIbcTransfers { paginated: pg, selected_packets: sel.clone(), receiver: rc.clone() }, vec![]));
             }
